@@ -448,6 +448,11 @@ pub fn run(op: &str, t: &[&str], v: &[Val], out: &mut Out, st: &mut State) -> bo
                     out.named("heq", || hash_of(a) == hash_of(b));
                     out.named("maxa", || std::cmp::max(a, b) == a);
                     out.named("mina", || std::cmp::min(a, b) == a);
+                    // the by-value provided methods of Ord (an impl may override them)
+                    out.named("vmaxa", || &Ord::max(a.clone(), b.clone()) == a);
+                    out.named("vmina", || &Ord::min(a.clone(), b.clone()) == a);
+                    out.named("clampa", || &Ord::clamp(a.clone(), Ord::min(a.clone(), b.clone()), Ord::max(a.clone(), b.clone())) == a);
+                    out.named("clampb", || &Ord::clamp(b.clone(), a.clone(), a.clone()) == a);
                 }};
             }
             match (regs.get(t[1]), regs.get(t[2])) {
